@@ -510,6 +510,18 @@ func genC04(g *Gen) {
 
 func genC05(g *Gen) {
 	reg := builtinRegistry()
+	// proprietary commands registered for one direction each (a history: the register ops are part of every replay); the frames
+	// generated below carry them in FOpts and on port 0 next to the built-in commands
+	for _, e := range []struct {
+		up        bool
+		cid, size int
+	}{{false, 0x80, 3}, {true, 0x81, 2}, {false, 0x90, 1}, {true, 0xa0, 4}} {
+		res := execOp(fmt.Sprintf("register %d %d %d", b2i(e.up), e.cid, e.size))
+		g.addf("register %d %d %d", b2i(e.up), e.cid, e.size)
+		if res == "ok" {
+			reg = append(filterReg(reg, e.up, e.cid), regEntry{e.up, e.cid, "ProprietaryMACCommandPayload", e.size})
+		}
+	}
 	n := g.scale(1200, 40000)
 	for i := 0; i < n; i++ {
 		up := i%2 == 0
